@@ -83,12 +83,9 @@ Proof.
   intros k data p d1 H. unfold xor_data in *.
   set (k' := match k with VBytes [b] => VInt (Z.of_N (Byte.to_N b)) | _ => k end) in *.
   destruct k'; try discriminate.
-  - destruct (Z.eqb z 0); [injection H as <-; reflexivity|].
-    destruct data as [|x data].
-    + injection H as <-. reflexivity.
-    + destruct ((0 <=? z)%Z && (z <? 256)%Z); [|discriminate]. injection H as <-.
-      cbn [map]. f_equal. f_equal. 2:{ rewrite map_map. rewrite <- (map_id data) at 2. apply map_ext. intros a. apply xor_byte_invol. }
-      apply xor_byte_invol.
+  - destruct (negb ((0 <=? z)%Z && (z <? 256)%Z)); [discriminate|].
+    destruct (Z.eqb z 0); [injection H as <-; reflexivity|]. injection H as <-.
+    f_equal. rewrite map_map. rewrite <- (map_id data) at 2. apply map_ext. intros a. apply xor_byte_invol.
   - destruct (Nat.leb (length b) 64 && forallb (fun b0 => Byte.eqb b0 x00) b) eqn:Ez.
     + injection H as <-. reflexivity.
     + injection H as <-. f_equal. destruct b as [|k0 b].
@@ -100,7 +97,8 @@ Qed.
 Theorem processxor_build : forall key c obj cx p o k,
   eval cx key = Ok k -> (exists z, k = VInt z) \/ (exists b, k = VBytes b) ->
   build (CProcessXor key c) obj cx p o =
-  (let* (r, o2) := build c obj cx p ostream_new in
+  (let* _ := xor_data k [] p in
+   let* (r, o2) := build c obj cx p ostream_new in
    let* d := xor_data k (odata o2) p in
    let* o' := owrite o d (Z.of_nat (length d)) p in Ok (r, o')).
 Proof. intros key c obj cx p o k He [[z ->]|[b ->]]; cbn [build]; rewrite He; reflexivity. Qed.
